@@ -491,6 +491,8 @@ var c35frontEnds = []string{"bare", "hls", "webrtc", "api", "playback", "metrics
 
 var c35listening = map[string]string{}
 
+var c35listenTries = map[string]int{}
+
 func c35freeAddr() string {
 	ln, err := net.Listen("tcp", "127.0.0.1:0")
 	if err != nil {
@@ -535,6 +537,12 @@ func c35listen(fe string) string {
 		panic("verif: unknown front end " + fe)
 	}
 	if err != nil {
+		// the address was found by listen-and-close; a check running beside this one may have taken it meanwhile
+		c35listenTries[fe]++
+		if c35listenTries[fe] < 6 {
+			time.Sleep(50 * time.Millisecond)
+			return c35listen(fe)
+		}
 		panic("verif: cannot start " + fe + ": " + err.Error())
 	}
 	c35listening[fe] = addr
